@@ -18,7 +18,7 @@ RULE = ('case = one generated SEG-Y (regular / irregular / 2D; header content fr
         'non-trivial = at least one varying field and >= 2 traces')
 ASSUMPTIONS = ['segyio returns the true header values of the generated SEG-Y (O-SRC)']
 MODES = ['heuristic', 'thorough', 'exhaustive', 'strip']
-INT_DTYPES = ['int8', 'int16', 'int32', 'int64', 'uint8', 'uint16', 'uint32', 'uint64']
+INT_DTYPES = ['int8', 'int16', 'int32', 'int64', 'uint8', 'uint16', 'uint32', 'uint64', '>i4', '>i2', '>i8', '>u4', '<i4']   # incl. non-native byte order
 
 
 def cases(tier, seed):
@@ -185,9 +185,9 @@ def run_numpy(case, ctx):
     strata = set()
     for j, k in enumerate(keys):
         dt = case.get('dtype') if j == 0 and case.get('dtype') else rng.choice(INT_DTYPES)
-        info = np.iinfo(dt)
+        info = np.iinfo(np.dtype(dt))
         lo, hi = max(info.min, -2 ** 31), min(info.max, 2 ** 31 - 1)
-        a = np.array([[rng.randint(lo, hi) for _ in range(nX)] for _ in range(nI)]).astype(dt)
+        a = np.array([[rng.randint(lo, hi) for _ in range(nX)] for _ in range(nI)]).astype(np.dtype(dt))
         lay = case.get('layout') if j == 0 and case.get('layout') else rng.choice(['C', 'F', 'bcast'])
         if lay == 'F':
             a = np.asfortranarray(a)
